@@ -38,11 +38,13 @@ theorem C19_icpt_identity (k : KSt) (op : Op) :
 
 /-- **C19_icpt_invisible.** For ANY id interceptor `c`: an operation — any kind, any options, tame or not — all of
 whose ids are spelled canonically (`c id = id`; for CreateMode also the ids the RNG proposes), in a state whose
-records carry canonical ids, has the result and the effect it has without the interceptor; and if it is tame the
-records still carry canonical ids afterwards. -/
+records carry canonical ids, has the result and the effect it has without the interceptor and publishes the same
+PullModes / PullActiveMode events; and if it is tame the records still carry canonical ids afterwards. -/
 theorem C19_icpt_invisible (c : String → String) (k : KSt) (op : Op) (ho : OpCanon c op) (hk : RecsCanon c k) :
-    ikstep c k op = kstep k op ∧ (op.Tame → RecsCanon c (ikstep c k op).1) := by
-  refine ⟨ikstep_canon c k op ho hk, fun ht => ?_⟩
+    ikstep c k op = kstep k op ∧
+    ikmodeEvents c k op = kmodeEvents k op ∧ ikactiveEvents c k op = kactiveEvents k op ∧
+    (op.Tame → RecsCanon c (ikstep c k op).1) := by
+  refine ⟨ikstep_canon c k op ho hk, (ikevents_canon c k op ho hk).1, (ikevents_canon c k op ho hk).2, fun ht => ?_⟩
   rw [ikstep_canon c k op ho hk]
   exact kstep_canon hk op ho ht
 
@@ -92,7 +94,9 @@ what its failure costs is derived in the model: behind an interceptor that keeps
 `AddMode{Id:"B"}` (stored under `b`, the record says `B`), `ChangeActiveMode("B")` (found under `b`; the active mode's
 id is `B`), `DeleteMode("b")`: the guard compares the spellings `b` and `B`, the collection deletes the key `b` — the
 call succeeds, no mode is left, the active mode has been deleted (I2) and names no stored mode (I3).  Spelled `B` the
-same delete is refused. -/
+same delete is refused.  Second run, through the servers: a client that says `b` throughout (`UpdateActiveMode b`,
+`DeleteMode b`) deletes the active mode all the same, because the record was added as `B` and the active mode
+carries that spelling. -/
 theorem C19_icpt_fails :
     (let mB' : Mode := Mode.mk4 "B" "tb" false none
      let r1 := ikstep foldB (KSt.ofSt St.init) (.add mB')
@@ -101,7 +105,14 @@ theorem C19_icpt_fails :
      let r3' := ikstep foldB r2.1 (.delete "B" false {})
      r1.2 = .ok none ∧ r1.1.recs = [("b", mB')] ∧ r2.2.isOk = true ∧ r2.1.active.id = "B" ∧
      r3.2 = .ok none ∧ r3.1.recs = [] ∧ r3.1.changed = true ∧ kfind r3.1 (foldB r3.1.active.id) = none ∧
-     r3'.2 = .err .failedPrecondition ∧ r3'.1 = r2.1) := by decide
+     r3'.2 = .err .failedPrecondition ∧ r3'.1 = r2.1) ∧
+    -- … and a caller that uses ONE spelling throughout is not safe either, when the record was written with the other
+    (let mB' : Mode := Mode.mk4 "B" "tb" false none
+     let r1 := ikstep foldB (KSt.ofSt St.init) (.add mB')
+     let r2 := ikstep foldB r1.1 (.sChangeActive "b" 5)
+     let r3 := ikstep foldB r2.1 (.sDelete "b" false)
+     r2.2.isOk = true ∧ r2.1.active.id = "B" ∧ r3.2 = .ok none ∧ r3.1.recs = [] ∧
+     kfind r3.1 (foldB r3.1.active.id) = none) := by decide
 
 /-- **C19_icpt_repair.** What closes `C19_icpt_fails` (a statement about a PROPOSED guard, `ikdeleteModeRepaired`, not
 about the code): if `deleteMode` also refuses when the mode stored under the id carries the active mode's id, then
